@@ -590,6 +590,17 @@ class History(object):
                 else:
                     why = "corrupt-shares"
                 key = "healthy-reported-despite-%s%s" % (why, "/verify" if verify else "")
+                inv_s, _ = self.inventory(servers, 0, True)
+                rec_s = self.analyse(inv_s)[0]
+                survey_healthy = (len(inv_s) == 1 and len(rec_s) == 1 and len(inv_s[rec_s[0]]) >= V[rec_s[0]]["N"])
+                if verify and corrupt_seen and (survey_healthy or why == "corrupt-shares"):
+                    # only damage that verification alone can find stands between this grid and "healthy"
+                    try:
+                        listed = len(results.get_corrupt_shares())
+                    except Exception:
+                        listed = -1
+                    key = ("healthy-reported-although-the-verifier-listed-corrupt-shares" if listed > 0 else
+                           "healthy-reported-with-an-unverified-corrupt-copy-of-a-duplicated-share-number")
             ck.violation(key, "is_healthy()=%r (%s); valid shares on answering servers {version index: shnums}: %s; "
                          "corrupt shares present: %r" % (results.is_healthy(), w["summary"], w["inventory"], corrupt_seen), w)
         ck.mon("recoverable-oracle")
@@ -792,12 +803,16 @@ class History(object):
                 sample=dict(self.desc, op=op, status=st))
 
 
-# MUST_CATCH (selftest/breaks_c14.py):
-#   c14-health-ignores-unrecoverable-versions   checker: unrecoverable other versions do not make the file unhealthy
-#   c14-health-ignores-multiple-recoverable     checker: several recoverable versions still healthy
-#   c14-health-k-shares-enough                  checker: s < N -> s < k
-#   c14-repair-ignores-newer-unrecoverable      repairer proceeds unforced over an unrecoverable newer version
-#   c14-repair-ignores-same-seqnum              repairer proceeds unforced between same-seqnum competitors
-#   c14-repair-picks-oldest                     repairer republishes the lowest recoverable version
-#   c14-verify-ignores-bad-shares               verifier results dropped
-#   c14-repair-reports-success-without-publish  repairer skips the upload
+# MUST_CATCH (selftest/breaks_c14.py; each produces violation keys that the unchanged tree never shows):
+#   c14-health-ignores-unrecoverable-versions    caught  healthy-reported-despite-shares-of-another-version
+#   c14-health-ignores-multiple-recoverable      caught  healthy-reported-despite-several-recoverable-versions
+#   c14-health-k-shares-enough                   caught  healthy-reported-despite-fewer-than-n-distinct-shares
+#   c14-repair-ignores-newer-unrecoverable       caught  unforced-repair-proceeds-despite-newer-unrecoverable-version
+#   c14-newer-unrecoverable-compares-wrong-way   caught  same key
+#   c14-repair-ignores-same-seqnum               caught  unforced-repair-proceeds-despite-same-seqnum-competitors
+#   c14-repair-picks-oldest                      caught  content-after-repair-is-not-the-best-versions
+#   c14-verify-ignores-bad-shares                caught  healthy-reported-despite-fewer-than-n-distinct-shares/verify, ...-no-recoverable-version/verify
+#   c14-repair-reports-success-without-publish   caught  repair-did-not-write-exactly-one-new-version
+#   c14-recoverable-reported-always              caught  recoverable-reported-but-file-is-unrecoverable
+# Violations of the unchanged tree (analysed as genuine, see the report to the lead):
+#   healthy-reported-although-the-verifier-listed-corrupt-shares, healthy-reported-with-an-unverified-corrupt-copy-of-a-duplicated-share-number
